@@ -20,9 +20,9 @@ theorem content_bal {b : Bufs} (hb : BufsOk b) {c : Content} (h : c.Ok) : Bal (e
   | buf id => exact hb id
 
 /-- operations admitted on a `Good` marking: all of them (injected event streams balanced;
-    the filters of `filter(f)` in the model keep balanced input balanced: `fok_id`,
-    `fok_dropComments`) -/
+    the filter of `filter(f)` keeps balanced input balanced) -/
 def Op.OkGood : Op → Prop
+  | .filter f => FOk f
   | .replace c => c.Ok
   | .before c => c.Ok
   | .after c => c.Ok
@@ -173,14 +173,10 @@ theorem applyOp_good (b : Bufs) (op : Op) {s s' : MStream} {b' : Bufs}
     obtain ⟨rfl, rfl⟩ := h
     exact same (by unfold WellNested substitute; rw [map_balance (substEv_effPres p r n)]; exact hwn)
       (map_good (substEv_effPres p r n) hg)
-  | filter d =>
+  | filter f =>
     simp only [applyOp, Option.some.injEq, Prod.mk.injEq] at h
     obtain ⟨rfl, rfl⟩ := h
-    have hf : FOk (if d = true then dropComments else id) := by
-      cases d
-      · simpa using fok_id
-      · simpa using fok_dropComments
-    exact same (by unfold WellNested filterSel; rw [filter_balance hf hg]; exact hwn) (filter_good hf hg)
+    exact same (by unfold WellNested filterSel; rw [filter_balance hok hg]; exact hwn) (filter_good hok hg)
 
 theorem applyOp_dirty (b : Bufs) (op : Op) {s s' : MStream} {b' : Bufs}
     (hok : op.OkDirty) (inv : ChainInv false s b) (hsel : op.selOkAt s = true)
